@@ -7,6 +7,7 @@ import (
 	"github.com/hydraide/hydraide/app/core/hydra/swamp/treasure"
 	"github.com/hydraide/hydraide/app/core/hydra/swamp/treasure/guard"
 	"github.com/hydraide/hydraide/app/core/hydra/swamp/treasure/msgpackpatch"
+	"github.com/hydraide/hydraide/app/verifhook"
 )
 
 // PatchFieldsStatus categorizes the per-key outcome of a PatchFields call.
@@ -194,6 +195,7 @@ func (s *swamp) PatchFields(key string, ops []msgpackpatch.Op, condition *msgpac
 
 	guardID := treasureObj.StartTreasureGuard(true)
 	defer treasureObj.ReleaseTreasureGuard(guardID)
+	verifhook.Point("swamp.patchFields.guarded")
 
 	saved := false
 	defer func() {
